@@ -16,6 +16,7 @@ PAIRS = [
     (C + "incr_depth", C + "decr_depth"),
     (C + "take_closure", C + "reset_closure"),
     ("minijinja::vm::state::BlockStack::push", "minijinja::vm::state::BlockStack::pop"),
+    (C + "push_frame", C + "pop_frame"),
 ]
 
 
@@ -72,6 +73,8 @@ def check_closers(ctx, prog, tag, rule, only=None, why=""):
             if not closers or f.path in (op, cl):
                 continue
             opens = f.calls_to(op)
+            if cl.endswith("::pop_frame") and f.calls_to("minijinja::compiler::instructions::Instructions::get"):
+                continue        # the interpreter loop pops what *another instruction* pushed: paired by C05.B1 / B5
             if not opens and cl.endswith("::reset_closure"):
                 continue        # reset_closure is also the plain setter (Enclose creates the frame's closure with it)
             okb = set()
